@@ -69,6 +69,9 @@ FIXED_CELLS = _fixed_cells()
 HEX_CELLS = [c for c in FIXED_CELLS if c['family'] == 'hexagonal']
 
 
+SCALAR_TYPES = ['int8', 'int16', 'int32', 'int64', 'uint8', 'uint16', 'uint32', 'uint64']
+
+
 def enum_normal(tier):
     n, cells = (6, FIXED_CELLS[:24]) if tier == 'quick' else (10, FIXED_CELLS)
     return [{'cell': c, 'h': h, 'k': k, 'n': n} for c in cells for h in range(-n, n + 1) for k in range(-n, n + 1)]
@@ -88,6 +91,8 @@ def enum_reduce(tier):
     n = 6 if tier == 'quick' else 10
     cases = [{'kind': 'row', 'h': h, 'k': k, 'n': n} for h in range(-n, n + 1) for k in range(-n, n + 1)]
     cases += [{'kind': 'all_indices', 'maxindex': m, 'reduce': r} for m in range(1, n + 1) for r in (False, True)]
+    # maxindex handed in as a numpy integer scalar of every width and signedness
+    cases += [{'kind': 'all_indices', 'maxindex': m, 'reduce': r, 'mtype': t} for t in SCALAR_TYPES for m in (1, 2, 3) for r in (False, True)]
     return cases
 
 
@@ -137,8 +142,61 @@ _shape = st.sampled_from(['0', 'N', 'N', 'MN', 'MN'])
 # input forms of an index array: nested list, int64 / integer-valued float64 C array (the original three), and the other
 # documented "array-like" forms: nested tuples, int32 array, non-contiguous view, Fortran order, read-only array, list of
 # numpy integer scalars
-_form = st.sampled_from(['list', 'list', 'list', 'list', 'int', 'int', 'int', 'float', 'float', 'tuple', 'i32', 'nc', 'fortran',
-                         'ro', 'npscalars'])
+_form_general = st.sampled_from(['list', 'list', 'list', 'list', 'int', 'int', 'int', 'float', 'float', 'tuple', 'i32', 'nc', 'fortran',
+                                 'ro', 'npscalars'])
+
+# Integer dtypes of an index ARRAY other than the default int64 / int32-with-small-values: narrow, unsigned, big-endian, bool.
+# form -> (numpy dtype string, lowest, highest index generated).  The index values of such a block are drawn from the WHOLE
+# range lo..hi (limits included), so that the intermediate quantities of the conversions (h*k*l, lcm(h,k,l), -m, 2u-v, 2U+V,
+# gcd = |lo|) do not fit the dtype: a conversion that does its integer arithmetic in the caller's dtype wraps around.
+# 32- and 64-bit types: |index| <= BIG = 100000 (products of three still overflow 32 bits).  Beyond ~1.3e5 the documented
+# lcm-based plane algorithm itself leaves exact int64/float64 arithmetic (lcm(h,k,l) > 2^53) for every dtype, int64 and Python
+# lists included: that is the arithmetic of the documented algorithm, not a dtype matter, and is kept out.
+BIG = 100000
+DTYPES = {'i8': ('int8', -128, 127), 'i16': ('int16', -32768, 32767), 'i32w': ('int32', -BIG, BIG), 'i64w': ('int64', -BIG, BIG),
+          'u8': ('uint8', 0, 255), 'u16': ('uint16', 0, 65535), 'u32': ('uint32', 0, BIG), 'u64': ('uint64', 0, BIG),
+          'be16': ('>i2', -32768, 32767), 'be32': ('>i4', -BIG, BIG), 'be64': ('>i8', -BIG, BIG), 'bool': ('bool', 0, 1)}
+UNSIGNED = ('u8', 'u16', 'u32', 'u64', 'bool')
+_form_narrow = st.sampled_from(['i8', 'i8', 'i16', 'i16', 'u8', 'u8', 'u16', 'u32', 'u64', 'i32w', 'i64w', 'be16', 'be32', 'be64', 'bool'])
+# forms that fit the small (|index| <= 12, signed) pools of the histories: values are small there, the dtype is what varies
+_form_narrow_small = st.sampled_from(['i8', 'i8', 'i16', 'u8', 'u8', 'u16', 'u32', 'u64', 'be16', 'be32', 'be64', 'i64w'])
+_i0_19 = st.integers(0, 19)
+
+
+@st.composite
+def _forms(draw, narrow=_form_narrow):
+    """70 % the general forms, 30 % a narrow / unsigned / big-endian / bool integer array"""
+    return draw(narrow) if draw(_i0_19) < 6 else draw(_form_general)
+
+
+_form = _forms()
+_form_hist = _forms(_form_narrow_small)
+
+
+def _wide_elem(lo, hi):
+    if hi == 1:
+        return st.sampled_from([0, 1, 1])
+    near = [hi, hi, hi - 1, hi - 2, hi // 2, hi // 2 + 1, hi // 3] + ([lo, lo, lo + 1, -hi, lo // 2, -(hi // 2) - 1] if lo < 0 else [hi, hi - 3])
+    small = st.integers(max(lo, -12), 12)
+    full = st.integers(lo, hi)
+    return st.one_of(full, full, full, st.sampled_from(near), st.sampled_from(near), small, small, st.just(0))
+
+
+_wide_triple = {f: st.tuples(_wide_elem(lo, hi), _wide_elem(lo, hi), _wide_elem(lo, hi)).map(lambda t: _nz(t))
+                for f, (dt, lo, hi) in DTYPES.items()}
+
+
+def fit4(t, lo, hi):
+    """(h,k,l) -> (h,k',l) such that the induced third Miller-Bravais index -(h+k') is inside lo..hi as well (signed lo)"""
+    h, k, l = t
+    i = max(lo, min(hi, -(h + k)))
+    return [h, -i - h, l]
+
+
+def _map_block(idx, fn):
+    if isinstance(idx[0], list):
+        return [_map_block(x, fn) for x in idx]
+    return fn(idx)
 
 
 @st.composite
@@ -173,10 +231,80 @@ _i016 = st.integers(0, 17)
 _n34 = st.sampled_from([3, 3, 4])
 
 
+_gmul = st.integers(0, 10 ** 6)
+_i0_11 = st.integers(0, 11)
+_wide_block = {f: index_block(_wide_triple[f]) for f in DTYPES}
+_min_elem = {f: st.sampled_from([lo, lo, 0, lo // 2, -(lo // 2)]) for f, (dt, lo, hi) in DTYPES.items() if lo < 0}
+
+
+def _reduce_elem_narrow(draw, form):
+    """a row for reduce_indices in a narrow dtype: 60 % g x (small triple) with g up to hi/5 (large common factor, still inside
+    the dtype), 1/12 (signed) rows of {lo, lo/2, 0} (gcd = |lo| has no representation in the dtype), else a full-range row"""
+    dt, lo, hi = DTYPES[form]
+    k = draw(_i0_11)
+    if k == 0 and lo < 0:
+        return _nz([draw(_min_elem[form]) for _ in range(3)])
+    if k <= 7:
+        s = draw(small_triple)
+        if lo == 0:
+            s = [abs(x) for x in s]
+        g = 1 + draw(_gmul) % max(1, hi // 5)
+        return [x * g for x in s]
+    return draw(_wide_triple[form])
+
+
 @st.composite
 def random_cases(draw):
     op = draw(_ops)
-    case = {'op': op, 'form': draw(_form)}
+    form = draw(_form)
+    case = {'op': op, 'form': form}
+    if form in DTYPES:
+        # narrow / unsigned / big-endian / bool integer array: indices from the whole range of the dtype
+        if op == 'reduce' and form == 'bool':
+            form = case['form'] = 'u8'          # reduce_indices documents 'an array of ints': bool is not one (numpy's gcd refuses it)
+        dt, lo, hi = DTYPES[form]
+        if op == 'reduce':
+            sh = draw(_shape)
+            rows = lambda n: [_reduce_elem_narrow(draw, form) for _ in range(n)]
+            if sh == '0':
+                blk = {'shape': sh, 'idx': rows(1)[0]}
+            elif sh == 'N':
+                blk = {'shape': sh, 'idx': rows(draw(_i15))}
+            else:
+                n = draw(_i15)
+                blk = {'shape': sh, 'idx': [rows(n) for _ in range(draw(_i13))]}
+        else:
+            blk = draw(_wide_block[form])
+        case.update(blk)
+        four = False
+        if lo < 0 and op in ('normal', 'vector', 'reduce'):
+            if op == 'reduce':
+                four = draw(_bool)
+            else:
+                case['cell'] = draw(_cells16h)
+                four = draw(_bool) if case['cell']['family'] == 'hexagonal' else draw(_i05) == 0
+        elif op in ('normal', 'vector'):
+            # unsigned: the third index -(h+k) of a 4-index form is not representable (unless h = k = 0): 3-index only
+            case['cell'] = draw(_cells16h)
+        if four or (op == 'conv34' and lo < 0):
+            # the induced quadruple (h, k, -(h+k), l) has to fit the dtype too
+            case['idx'] = _map_block(case['idx'], lambda t: _nz(fit4(t, lo, hi)))
+        if op in ('normal', 'vector'):
+            case['via'] = draw(_via)
+            case['four'] = four
+            if op == 'normal':
+                case['uvw'] = draw(_uvws)
+            else:
+                case['den'] = 1
+        elif op == 'conv34':
+            case['bad'] = draw(_bad)
+        elif op == 'centering':
+            case['setting'] = draw(_setting)
+            case['den'] = 1
+        else:
+            case['mult'] = 1
+            case['four'] = four
+        return case
     case.update(draw(index_block()))
     if op == 'normal':
         case['cell'] = draw(_cells16h)
@@ -263,7 +391,7 @@ def _hist_cell(draw, prev=None):
 @st.composite
 def _query(draw):
     return {'k': 'q', 'what': draw(_qwhat), 'sel': 0 if draw(_bool) else draw(_i0_31), 'via': draw(_via),
-            'four': draw(_qfour), 'form': draw(_form), 'shape': draw(_qshape), 'den': draw(_den), 'perm': draw(_i0_99)}
+            'four': draw(_qfour), 'form': draw(_form_hist), 'shape': draw(_qshape), 'den': draw(_den), 'perm': draw(_i0_99)}
 
 
 _query_s = _query()
@@ -309,6 +437,14 @@ def box_history_cases(draw):
 _seqlen = st.sampled_from([2, 3, 3, 4, 5])
 
 
+def _variant_form(draw, base_form):
+    """the form of a repeat of the same index block: a block drawn for a narrow dtype (values from that dtype's range) is
+    repeated in that dtype or in a general form (int64 based: holds every value); a general block in any general form"""
+    if base_form in DTYPES and draw(_bool):
+        return base_form
+    return draw(_form_general)
+
+
 @st.composite
 def call_history_cases(draw):
     n = draw(_seqlen)
@@ -319,7 +455,7 @@ def call_history_cases(draw):
         rc = draw(_random_cases)
         den = draw(_den)
         for _ in range(n):
-            ops.append(['random', {'op': 'centering', 'form': draw(_form), 'shape': rc['shape'], 'idx': rc['idx'],
+            ops.append(['random', {'op': 'centering', 'form': _variant_form(draw, rc['form']), 'shape': rc['shape'], 'idx': rc['idx'],
                                    'setting': draw(_setting_t), 'den': den}])
         return {'related': True, 'ops': ops, 'order': draw(_i0_99)}
     if fl <= 6:
@@ -340,9 +476,11 @@ def call_history_cases(draw):
                 v['via'] = draw(_via)
             elif base['op'] == 'reduce':
                 v['mult'] = draw(_mult)
-            v['form'] = draw(_form)
+            v['form'] = _variant_form(draw, base['form'])
             if base['op'] == 'reduce' and v['form'] == 'float':
                 v['form'] = 'int'
+            if base['op'] == 'reduce' and v['form'] in DTYPES:
+                v['mult'] = base['mult']            # a multiple of the block need not fit the narrow dtype
             ops.append(['random', v])
         return {'related': True, 'ops': ops, 'order': draw(_i0_99)}
     for _ in range(n):
